@@ -63,6 +63,43 @@ def digest_exact(case, o):
         return None
 
 
+def score_agreement(case, o):
+    """supporting comparison for "hence its score equals the score of the explicit value tuple": score every new column and an
+    explicit tuple-coded column against the label with the real numba MI estimator (both settings of the cardinality
+    correction) and with max-value-coverage.  Returns the worst case [abs diff, scale, column, scorer] or None."""
+    import itertools
+    import numpy as np
+    try:
+        from outrank.algorithms.feature_ranking import ranking_mi_numba, ranking_cov_alignment
+    except Exception:
+        return None
+    if case["label"] not in case["names"] or len(case["rows"]) > 250:
+        return None
+    feats = [n for n in case["names"] if n != case["label"]]
+    k = 2 if case.get("is3mr") else case["order"]
+    sep = " AND_REL " if case.get("is3mr") else " AND "
+    cand = {sep.join(c): c for c in itertools.combinations(feats, k)}
+    nd = len(case["names"])
+    lab = pd.Series([r[case["names"].index(case["label"])] for r in case["rows"]]).astype("category").cat.codes.to_numpy().astype(np.int32)
+    worst = [0.0, 1.0, None, None]
+    for nm, col in zip(o["names"][nd:], o["cols"][nd:]):
+        comb = cand.get(nm)
+        if comb is None or len(col) != len(case["rows"]):
+            continue
+        pos = [case["names"].index(f) for f in comb]
+        ids = {}
+        tup = np.array([ids.setdefault(tuple(r[p] for p in pos), len(ids)) for r in case["rows"]], dtype=np.int32)
+        inter = pd.Series(col).astype("category").cat.codes.to_numpy().astype(np.int32)   # as mixed_rank_graph codes it
+        for scorer, f in (("MI-numba", lambda x: float(ranking_mi_numba.mutual_info_estimator_numba(x, lab, np.float32(1.0), False))),
+                          ("MI-numba-randomized", lambda x: float(ranking_mi_numba.mutual_info_estimator_numba(x, lab, np.float32(1.0), True))),
+                          ("max-value-coverage", lambda x: float(ranking_cov_alignment.max_pair_coverage(x, lab)))):
+            a, b = f(inter), f(tup)
+            d = abs(a - b)
+            if not (d <= worst[0]):
+                worst = [d, max(abs(a), abs(b), 1.0), nm, scorer, a, b]
+    return worst
+
+
 def reset_state():
     cr.GLOBAL_PRIOR_COMB_COUNTS.clear()
     for nm in dir(cr):                       # any further module-level cache a rewrite may introduce
@@ -249,6 +286,7 @@ for case in payload["cases"]:
         o = read_frame(res, labels)
         o["ok"] = True
         o["digest_exact"] = digest_exact(case, o)
+        o["score_agreement"] = score_agreement(case, o)
         o["counter"] = sorted([list(k), int(v)] for k, v in cr.GLOBAL_PRIOR_COMB_COUNTS.items())
         out.append(o)
     except Exception as e:  # recorded outcome, decided by the harness
